@@ -332,6 +332,9 @@ func (a *authority) adsResourceUpdate(serverConfig *ServerConfig, rType Resource
 // Only executed in the context of a serializer callback.
 func (a *authority) handleADSResourceUpdate(serverConfig *ServerConfig, rType ResourceType, updates map[string]dataAndErrTuple, md xdsresource.UpdateMetadata, onDone func()) {
 	if !a.handleRevertingToPrimaryOnUpdate(serverConfig) {
+		// The update is ignored; the stream it came from must still be
+		// allowed to read its next response.
+		onDone()
 		return
 	}
 
